@@ -106,7 +106,9 @@ theorem itemrefs_cost {w : Ctx → Node → St → St} {doc : Node} (ih : WCost 
           · exact cost_weaken (Nat.zero_le _) (cost_refl doc st)
           · split
             · exact cost_weaken (Nat.zero_le _) (cost_refl doc st)
-            · exact cost_weaken (size_sub doc target (findId_mem ht)) (ih _ target st (findId_mem ht))
+            · have := ih { ctx with recursed := ref :: ctx.recursed } target
+                { st with copies := st.copies + ctx.recursed.length } (findId_mem ht)
+              exact cost_weaken (size_sub doc target (findId_mem ht)) ⟨this.1, this.2⟩
     have := cost_trans hstep (ihr (itemrefStep w doc ctx n st ref))
     rw [Nat.succ_mul]
     exact cost_weaken (by omega) this
